@@ -1,5 +1,7 @@
 package route
 
+import "strings"
+
 // Routes stores a list of routes usually for a single host.
 type Routes []*Route
 
@@ -14,6 +16,14 @@ func (rt Routes) find(path string) *Route {
 }
 
 // sort by path in reverse order (most to least specific)
-func (rt Routes) Len() int           { return len(rt) }
-func (rt Routes) Swap(i, j int)      { rt[i], rt[j] = rt[j], rt[i] }
-func (rt Routes) Less(i, j int) bool { return rt[j].Path < rt[i].Path }
+func (rt Routes) Len() int      { return len(rt) }
+func (rt Routes) Swap(i, j int) { rt[i], rt[j] = rt[j], rt[i] }
+func (rt Routes) Less(i, j int) bool {
+	// compare without regard to letter case first: the longer of two paths
+	// which both match a request sorts first for the case-sensitive matchers
+	// and for the case-insensitive one alike (/Foo/bar before /foo)
+	if a, b := strings.ToLower(rt[i].Path), strings.ToLower(rt[j].Path); a != b {
+		return b < a
+	}
+	return rt[j].Path < rt[i].Path
+}
